@@ -49,6 +49,7 @@ EXTENDS Integers, Sequences, FiniteSets, TLC, Json
 CONSTANTS LabOrder,  \* label sets in the order a scrape appends them, e.g. <<"a","b","c">>
           R,         \* head chunk range
           Gaps,      \* by how much a scrape may advance the clock afterwards
+          Kinds,     \* scrape kinds in use, subset of {"zero", "own", "stale"}
           MaxClk,    \* bound of the clock
           OOOBack,   \* how far back (before clk) an out-of-order sample may be
           Snap,      \* EnableMemorySnapshotOnShutdown
@@ -271,6 +272,19 @@ Init ==
 LabAB == <<"a", "b">>
 LabABC == <<"a", "b", "c">>
 NoScript == <<>>
+\* scenario skeletons: step i may only take an action of Script[i]; afterwards any action of Acts
+\* series churn (gc / eviction), WAL segments, checkpoint, restart, new series
+ScriptCkpt == <<{"Scrape"}, {"Cut"}, {"Scrape", "EvictSel", "OOO"}, {"Cut"}, {"Scrape", "EvictSel", "Mmap"}, {"Cut", "Scrape"},
+                {"CompactHead"}, {"CompactOOO", "CompactHead", "Cut", "Scrape"}, {"Restart", "Crash"}, {"Scrape"},
+                {"Restart", "Crash", "CompactHead"}, {"Scrape", "Cross"}>>
+\* fast startup on/off, series_state.json ticks, snapshots, clean and unclean restarts
+ScriptFast == <<{"Scrape"}, {"Tick", "Scrape", "Restart"}, {"Scrape", "EvictSel", "CompactHead"}, {"Restart", "Crash", "Tick"},
+                {"Scrape", "EvictSel"}, {"Restart", "Crash"}, {"Scrape"}, {"Restart", "Crash"}, {"Scrape", "Cross"}>>
+\* out-of-order chunks left in the head-chunk files, series gc, checkpoint, restarts (DESIGN H10)
+ScriptOOO == <<{"Scrape"}, {"Scrape"}, {"OOO"}, {"Scrape", "Mmap", "OOO"}, {"Cut", "Mmap"}, {"CompactHead"}, {"CompactOOO"}, {"Cut"},
+               {"Scrape", "Cut"}, {"CompactHead"}, {"Restart"}, {"Scrape"}, {"Restart"}, {"Scrape"}>>
+\* shortest routes to the two known findings
+ScriptKF == <<{"Scrape"}, {"Restart"}, {"Scrape", "EvictSel"}, {"Restart"}, {"Scrape"}>>
 
 Allowed == IF nops < Len(Script) THEN Script[nops + 1] ELSE Acts
 
@@ -290,10 +304,16 @@ Digest(lid, sr, br, sg, fst, c, fl, bk) ==
    cp   |-> [idx |-> c.idx, es |-> [i \in 1..Len(c.es) |-> EJ(c.es[i])]],
    segs |-> [i \in 1..Len(sg) |-> [seg |-> fst + i - 1, es |-> [j \in 1..Len(sg[i]) |-> EJ(sg[i][j])]]],
    files |-> FilesJ(fl)]
-DigestNext == Digest(lastID', ser', byRef', segs', first', cp', files', blk')
+\* hist keeps the raw post-state of every step (no evaluation cost); the digest is computed only for emitted behaviours
+RawNext == [lastID |-> lastID', ser |-> ser', byRef |-> byRef', segs |-> segs', first |-> first', cp |-> cp', files |-> files', blk |-> blk']
+HistJ(h) == [i \in 1..Len(h) |->
+               IF "raw" \in DOMAIN h[i]
+                 THEN LET w == h[i].raw IN
+                      [k \in DOMAIN h[i] \ {"raw"} |-> h[i][k]] @@ [st |-> Digest(w.lastID, w.ser, w.byRef, w.segs, w.first, w.cp, w.files, w.blk)]
+                 ELSE h[i]]
 
 Step(rec) == /\ nops' = nops + 1
-             /\ hist' = Append(hist, rec @@ [st |-> DigestNext, kfs |-> SetToSeq(kfset')])
+             /\ hist' = Append(hist, rec @@ [raw |-> RawNext, kfs |-> SetToSeq(kfset')])
 
 -----------------------------------------------------------------------------
 (* Appends *)
@@ -317,19 +337,18 @@ DoAppend(A, l, arg, t, stale, ooo) ==
       o1    == IF ooo THEN [o EXCEPT !.ooh = @ \cup {x}] ELSE AppendIno(o, x)
       ret   == o.r
       \* NoReuse at the moment a new ref is handed out
-      bad   == creat /\ newr \in A.forbid[l]
+      bad   == creat /\ Conflict(newr, l)
       live  == creat /\ newr \in DOMAIN A.byRef
   IN [ser |-> [ser1 EXCEPT ![tl] = o1], byRef |-> br1, lastID |-> IF creat THEN newr ELSE A.lastID,
       issued |-> [A.issued EXCEPT ![tl] = @ \cup {ret}],        \* the caller learns: ret is the ref of the series it wrote to
-      forbid |-> [k \in Labs |-> IF k = tl THEN A.forbid[k] ELSE A.forbid[k] \cup {ret}],
       news |-> IF creat THEN Append(A.news, E("S", newr, l, NoX)) ELSE A.news,
       ents |-> Append(A.ents, E("D", ret, tl, x)),
-      recs |-> Append(A.recs, [l |-> l, arg |-> arg, ret |-> ret, tl |-> tl, own |-> LabSeq(own), forbid |-> SetToSeq(A.forbid[l]),
+      recs |-> Append(A.recs, [l |-> l, arg |-> arg, ret |-> ret, tl |-> tl, own |-> LabSeq(own), reuse |-> bad,
                                creat |-> creat]),
       kf |-> A.kf \cup (IF live THEN {"KF-C22-2"} ELSE IF bad THEN {"KF-C22-1"} ELSE {}),
       wrong |-> A.wrong \/ (tl \notin own)]
 
-A0 == [ser |-> ser, byRef |-> byRef, lastID |-> lastID, issued |-> issued, forbid |-> [l \in Labs |-> Forbid(l)],
+A0 == [ser |-> ser, byRef |-> byRef, lastID |-> lastID, issued |-> issued,
        news |-> <<>>, ents |-> <<>>, recs |-> <<>>, kf |-> {}, wrong |-> FALSE]
 
 RECURSIVE AppendAll(_, _, _, _, _)
@@ -634,14 +653,19 @@ Reopen(kind, fast) ==
                  ELSE snap
       sg1   == Append(segs, <<>>)                                    \* wlog.NewSize: a new segment on every start
       os    == OpenState(sg1, first, cp, wbl, fl1, blkMax, sn1, sst1, fast, pm[2].cn)
-  IN /\ ser' = os.ser /\ byRef' = os.byRef /\ lastID' = os.lastID /\ exp' = os.exp
+      \* the allocator restarts below a reference that is bound to a series: the next new series will collide with it
+      low   == \E r \in DOMAIN os.byRef : r > os.lastID
+      kf    == IF low THEN {"KF-C22-2"} ELSE {}
+  IN /\ kf \subseteq AllowKF
+     /\ kfset' = kfset \cup kf
+     /\ ser' = os.ser /\ byRef' = os.byRef /\ lastID' = os.lastID /\ exp' = os.exp
      /\ hMin' = os.hMin /\ hMax' = os.hMax /\ minValid' = os.minValid
      /\ lastTr' = NEG /\ minOOO' = 0 /\ issued' = [l \in Labs |-> {}]
      /\ curF' = os.D.curF /\ cutNext' = os.D.cutNext /\ files' = os.D.files /\ cn' = os.D.cn
      /\ fastOn' = fast
      /\ segs' = sg1 /\ sst' = sst1
      /\ snap' = IF os.snapDeleted THEN [sn1 EXCEPT !.ok = FALSE] ELSE sn1
-     /\ UNCHANGED <<first, cp, wbl, blk, blkMax, clk, kfset>>
+     /\ UNCHANGED <<first, cp, wbl, blk, blkMax, clk>>
      /\ Step([a |-> kind, fast |-> fast, predisk |-> FilesJ(fl1), sst |-> sst1, snapok |-> sn1.ok])
 
 Restart(fast) == "Restart" \in Allowed /\ Reopen("Restart", fast)
@@ -652,7 +676,7 @@ End == nops = MaxOps /\ nops' = MaxOps + 1 /\ UNCHANGED <<mvars, dvars, clk, cn,
 
 Next ==
   \/ /\ nops < MaxOps
-     /\ \/ \E S \in (SUBSET Labs) \ {{}}, kind \in {"zero", "own", "stale"}, g \in Gaps : Scrape(S, kind, g)
+     /\ \/ \E S \in (SUBSET Labs) \ {{}}, kind \in Kinds, g \in Gaps : Scrape(S, kind, g)
         \/ \E l \in Labs, r \in 1..lastID, g \in Gaps : Cross(l, r, g)
         \/ \E l \in Labs, d \in OOOBack : OOO(l, clk - d)
         \/ Mmap
@@ -703,7 +727,7 @@ LastRec == hist'[Len(hist')]
 Class ==
   LET r == LastRec IN
   IF r.a \in {"Scrape", "Cross", "OOO"} THEN
-       <<r.a, {<<p.creat, p.arg = 0, p.arg # 0 /\ p.arg \notin DOMAIN byRef, p.tl = p.l, p.forbid # <<>>, p.ret = lastID + 1>> : p \in Range(r.apps)},
+       <<r.a, {<<p.creat, p.arg = 0, p.arg # 0 /\ p.arg \notin DOMAIN byRef, p.tl = p.l, p.reuse, p.ret = lastID + 1>> : p \in Range(r.apps)},
          Len(segs), cp.idx >= 0, kfset' # {}>>
   ELSE IF r.a = "CompactHead" THEN <<r.a, ser' # ser, cp' # cp, Len(cp'.es) < Len(cp.es) + Len(Flat(segs)), files' # files, DOMAIN exp' # DOMAIN exp, kfset # {}>>
   ELSE IF r.a = "CompactOOO" THEN <<r.a, DOMAIN byRef' # DOMAIN byRef, DOMAIN files' # DOMAIN files, kfset # {}>>
@@ -716,10 +740,10 @@ Class ==
 Emit ==
   CASE EmitMode = "none" -> TRUE
     [] hist' = hist -> TRUE
-    [] EmitMode = "all" -> PrintT("@@TR " \o ToJson(hist'))
+    [] EmitMode = "all" -> PrintT("@@TR " \o ToJson(HistJ(hist')))
     [] OTHER -> LET cl == Class IN
                 \/ cl \in TLCGet(1)
                 \/ /\ TLCSet(1, TLCGet(1) \cup {cl})
-                   /\ PrintT("@@TR " \o ToJson(hist'))
-EmitWalk == nops <= MaxOps \/ PrintT("@@TR " \o ToJson(hist))
+                   /\ PrintT("@@TR " \o ToJson(HistJ(hist')))
+EmitWalk == nops <= MaxOps \/ PrintT("@@TR " \o ToJson(HistJ(hist)))
 =============================================================================
